@@ -44,6 +44,7 @@
 import RotoV.Lemmas.C01Agree
 import RotoV.Lemmas.C01Shape
 import RotoV.Lemmas.C01MirOps
+import RotoV.Lemmas.C01SpecOps
 import RotoV.Props.C08
 import RotoV.Model.NativeFloat
 
@@ -156,6 +157,25 @@ theorem mir_unop_generated (dbg : Bool) (σ : Store) (x : Var) :
     exact ⟨.bool (!b), _, by simp [evalValue, hb], rfl, not_generated dbg b⟩
 
 example : inI32 (-2147483648) = true ∧ TraceSpec.wrap32 (-(-2147483648)) = -2147483648 := by decide
+
+/-- **`spec_binop_generated`.**  The operator semantics of C01's reference interpreter is the
+    generated table composition at ALL EIGHT integer types: for every type `t`, operator and operands
+    in the type's range, if `Spec.intArith` defines a value (`+ - *` wrapped, `/ %` truncating
+    where they do not trap, the six comparisons on the mathematical values), then the generated
+    `lower_binop` at `Primitive.Int (kindOf t) (sizeOf' t)` yields an instruction whose generated
+    codegen arm on CLIF semantics computes the SSA value of that value, in both build profiles. -/
+theorem spec_binop_generated (dbg : Bool) (t : Spec.ITy) (op : Spec.BinOp) (a b : Int)
+    (ha : t.inRange a = true) (hb : t.inRange b = true) (v : Spec.Val) (h : Spec.intArith op t a b = .ok v) :
+    ∃ i cv, lower_binop dbg (C01SpecOps.genOpS op) (.Primitive (.Int (C01SpecOps.kindOf t) (C01SpecOps.sizeOf' t))) = .ok i
+      ∧ C01SpecOps.cvS t v = some cv
+      ∧ runInstr dbg i (operands (cvInt (wrap (C01SpecOps.kindOf t) (C01SpecOps.sizeOf' t) a))
+          (cvInt (wrap (C01SpecOps.kindOf t) (C01SpecOps.sizeOf' t) b))) = .ok cv :=
+  C01SpecOps.spec_binop_generated dbg t op a b ha hb v h
+
+/-- non-vacuity: `Spec` defines `-7i8 / 2i8 = -3`, `200u8 + 100u8 = 44`, `3u16 < 65535u16`. -/
+example : Spec.intArith .div .i8 (-7) 2 = .ok (.int .i8 (-3)) ∧ Spec.intArith .add .u8 200 100 = .ok (.int .u8 44)
+    ∧ Spec.intArith .lt .u16 3 65535 = .ok (.bool true) ∧ Spec.ITy.i8.inRange (-7) = true := by
+  refine ⟨rfl, rfl, rfl, rfl⟩
 
 /-! ## the executable composed model (the driver's second oracle) -/
 
